@@ -161,6 +161,29 @@ def handle : Handler := fun op args impl =>
         if !distinct || !ok then some ⟨full, "na"⟩
         else some ⟨full, verdictOf (impl == full) ("support-" ++ what ++ "-outcome-never-reached")⟩
       | none => some ⟨"err", "na"⟩
+    | "rarefy", [nb, counts] => do
+      -- Rarefy(nb, counts): exact replay, same seed same result (the harness runs it three times), and the
+      -- promise: the output is a sub-list of the rows (original order), every kept row has a count
+      let nb ← parseInt? nb
+      let cs ← (if counts == "_" then some [] else (counts.splitOn ";").mapM fun c =>
+        match c.splitOn "=" with
+        | [k, v] => (parseInt? v).map fun x => (k, x)
+        | _ => none)
+      let sorted := cs.mergeSort fun a b => decide (a.1 ≤ b.1)
+      if impl.startsWith "nondet" then some ⟨"deterministic", "fail:same-seed-different-result"⟩ else
+      if nb < 0 || sorted.any (fun c => c.2 ≤ 0) || (sorted.map Prod.fst).eraseDups.length != sorted.length then
+        some ⟨"err", if nb < 0 then "na" else verdictOf (impl == "err") "rarefy-bad-counts-must-fail"⟩ else
+      match rarefy nb.toNat (sorted.map fun c => (c.1, c.2.toNat)) rows with
+      | none => some ⟨"err", verdictOf (impl == "err") "rarefy-bad-args-must-fail"⟩
+      | some p =>
+        let m := runSeed p seed
+        let v := match impl.splitOn " " with
+          | ["ok", r] => match decRows r with
+            | some out => verdictOf (out.isSublist rows && out.all (fun r => sorted.any fun c => c.1 == r.1) && out.length ≤ nb.toNat)
+                            "rarefy-not-a-sublist-of-counted-rows"
+            | none => "fail:unparsable"
+          | _ => "fail:rarefy-valid-args-failed"
+        some ⟨"ok " ++ encRows m, v⟩
     | "twice", [] => some ⟨"same", verdictOf (impl == "same") "same-seed-different-result"⟩
     | _, _ => none
   | _, _ => none
